@@ -246,3 +246,105 @@ func clipStr(s string, n int) string {
 	}
 	return s
 }
+
+// Survivor is a long-lived iterator that lives through a fault round: it is
+// opened before the faults start (its view is frozen at that state), seeked
+// while faults are injected (an error is acceptable, a result without error
+// must be right) and seeked again after the faults have stopped, when every
+// result must be right and error-free. A reader that keeps its iterator across
+// a transient I/O error is exactly what CockroachDB's retry loops do.
+type Survivor struct {
+	it   *pebble.Iterator
+	m    *model.Iter
+	last string
+}
+
+// SurvivorOpen opens the survivor iterator on the current state.
+func (r *Run) SurvivorOpen() *Survivor {
+	mo := model.IterOpts{KeyTypes: model.PointsAndRanges}
+	if !r.K.RangeKeys || r.rng.IntN(2) == 0 {
+		mo.KeyTypes = model.PointsOnly
+	}
+	it, err := r.db.NewIter(r.toPebbleOpts(mo, false))
+	if err != nil {
+		r.fail("survivor-open", "NewIter: %v", err)
+		return nil
+	}
+	return &Survivor{it: it, m: model.NewIter(r.M.Clone(), mo)}
+}
+
+// Seeks runs n absolute positioning operations (plus a step each) on the
+// survivor. With faultsOn an error is acceptable.
+func (r *Run) SurvivorSeeks(s *Survivor, n int, faultsOn bool) {
+	if s == nil {
+		return
+	}
+	for i := 0; i < n && !r.failed; i++ {
+		k := r.randSeekKey()
+		if s.last != "" && r.rng.IntN(3) == 0 {
+			k = s.last // re-seek where an earlier seek (possibly a failed one) went
+		}
+		s.last = k
+		var got, stepGot bool
+		var exp, stepExp model.Pos
+		var ok, stepOK bool
+		op := "SeekGE"
+		if r.rng.IntN(2) == 0 {
+			exp, ok = s.m.SeekGE(k)
+			got = s.it.SeekGE([]byte(k))
+		} else {
+			op = "SeekLT"
+			exp, ok = s.m.SeekLT(k)
+			got = s.it.SeekLT([]byte(k))
+		}
+		check := func(what string, got bool, exp model.Pos, ok bool) bool {
+			if err := s.it.Error(); err != nil {
+				if !faultsOn {
+					r.fail("error-without-fault", "long-lived iterator: %s(%s) after the faults stopped: %v", what, k, err)
+				}
+				r.count("survivor_ops_errored", 1)
+				return false
+			}
+			var gp model.Pos
+			if got {
+				gp = ReadPos(s.it)
+				if strings.HasPrefix(gp.Value, "<error:") {
+					if !faultsOn {
+						r.fail("error-without-fault", "long-lived iterator: value fetch failed after the faults stopped: %s", gp.Value)
+					}
+					r.count("survivor_ops_errored", 1)
+					return false
+				}
+			}
+			if got != ok || (got && !PosEqual(exp, gp)) {
+				r.fail("wrong-result-under-faults", "long-lived iterator (opened before the fault round, faults on now: %v): %s(%s) = %s with nil error, frozen model view has %s",
+					faultsOn, what, k, pstr(gp, got), pstr(exp, ok))
+				return false
+			}
+			r.count("survivor_ops_compared", 1)
+			return true
+		}
+		if !check(op, got, exp, ok) || r.failed {
+			continue
+		}
+		if !got {
+			continue
+		}
+		if op == "SeekGE" {
+			stepExp, stepOK = s.m.Next()
+			stepGot = s.it.Next()
+			check("Next after "+op, stepGot, stepExp, stepOK)
+		} else {
+			stepExp, stepOK = s.m.Prev()
+			stepGot = s.it.Prev()
+			check("Prev after "+op, stepGot, stepExp, stepOK)
+		}
+	}
+}
+
+// SurvivorClose closes the survivor.
+func (r *Run) SurvivorClose(s *Survivor) {
+	if s != nil {
+		_ = s.it.Close()
+	}
+}
